@@ -239,7 +239,16 @@ func (c *GoogleUserID) MarshalJSON() ([]byte, error) {
 	return []byte((*big.Int)(c).String()), nil
 }
 
+// maxGoogleUserIDDigits bounds the decimal text UnmarshalJSON will parse. A
+// Google user id has about 21 digits; math/big parses decimal text in time
+// and memory quadratic in its length (a 2.5 MB digit string took 13 GiB).
+const maxGoogleUserIDDigits = 128
+
 func (c *GoogleUserID) UnmarshalJSON(data []byte) error {
+	if len(data) > maxGoogleUserIDDigits {
+		return errors.New("bad bigint: too long")
+	}
+
 	if _, ok := (*big.Int)(c).SetString(string(data), 10); !ok {
 		return errors.New("bad bigint")
 	}
